@@ -289,7 +289,7 @@ pub fn rng_fill(buf: &mut [u8]) -> bool {
         assert!(n < DRAWS, "[model] capacity: more RNG draws than DRAWS");
         // failure is nondeterministic only when the harness asked for it: a symbolic Ok/Err merge would make every
         // length downstream of the draw non-constant for CBMC (see DESIGN.md section 3)
-        let ok: bool = if RNG_MAY_FAIL { fresh::<1>()[0] & 1 == 1 } else { true };
+        let ok: bool = if rng_can_fail() { fresh::<1>()[0] & 1 == 1 } else { true };
         let bytes: [u8; DRAW_CAP] = if RNG_PRE[n].0 { RNG_PRE[n].1 } else { fresh() };
         RNG.d[n] = Draw { len: buf.len(), ok, bytes };
         RNG.n = n + 1;
@@ -303,10 +303,16 @@ pub fn rng_fill(buf: &mut [u8]) -> bool {
         ok
     }
 }
-pub static mut RNG_MAY_FAIL: bool = false;
+// NOTE (Kani 0.68 pitfall, found by a native goto dump): a `static mut` whose initialiser has the same bytes as some program
+// constant can be chosen as the backing memory of that constant. Small mutable statics therefore start from a distinctive magic.
+const FLAG_MAGIC: u64 = 0x76_6d6f_6465_6c00;
+pub static mut RNG_MAY_FAIL_FLAG: u64 = FLAG_MAGIC;
 /// Harness switch: may the RNG fail (nondeterministically, independently at every draw)?
 pub fn rng_may_fail(b: bool) {
-    unsafe { RNG_MAY_FAIL = b }
+    unsafe { RNG_MAY_FAIL_FLAG = FLAG_MAGIC | b as u64 }
+}
+fn rng_can_fail() -> bool {
+    unsafe { RNG_MAY_FAIL_FLAG == FLAG_MAGIC | 1 }
 }
 pub fn rng_draws() -> usize {
     unsafe { RNG.n }
